@@ -172,6 +172,19 @@ def _run(ctx, current, mon):
         if window:
             ctx.maxi("max_dependence_in_dedup_window(abs,rel to scale)", worst)
 
+        # ---- the axial strains are only ever used as fractions: any positive common scale gives the same tensor ------------------
+        for fac in (1e-8, 1e-3, 1e4):
+            r = run_list(ctx, calc, strain * fac, ALL21, case_id, f"{cls}/strain-scale{fac:g}")
+            ctx.evaluation(f"strain-scale|{cls}", (isp, fac), sample={"strain_class": cls, "strain_scale": fac})
+            if r is None:
+                continue
+            for p_ in ALL21:
+                err = max(numpy.abs(r[0][p_] - canon_i[p_]).max(), numpy.abs(r[1][p_] - canon_a[p_]).max()) / scale
+                ctx.maxi("strain_scale_dependence/tol", err / tol)
+                if not (err <= tol):
+                    ctx.violation(f"strain-scale-dependence:{T.classify(*p_)}", f"{cls}: c{p_[0]}{p_[1]} changes by {err:.3g} x scale when all axial strains are "
+                                  f"multiplied by {fac:g}", case_id, {"strain_class": cls, "factor": fac})
+                    break
         # ---- shear: adiabatic == isothermal, non-trivially ----------------------------------------
         nontriv = any(numpy.any(canon_a[p] != canon_i[p]) for p in ALL21 if T.classify(*p) != "shear")
         for p in ALL21:
